@@ -110,6 +110,9 @@ def load(reg):
     # because the three fields are written by constructors only: frame scan below): the type is a quantity class, the bounds are numbers
     def qparam_inv(eng, st):
         import z3 as _z3
+        # only units of the parameter / model modules can reach a quantity parameter: elsewhere the hypothesis is dropped
+        if getattr(eng.func, "module", None) not in ("parameters", "model") and not str(getattr(eng, "unit", "")).startswith("lemma:model"):
+            return _z3.BoolVal(True)
         from pyvc import sorts as _S
         r = _z3.Int("qp_r")
         ty = eng.heap_arr(st, "InputParameterQuantity._type", _S.parse_type("type"))
